@@ -202,6 +202,7 @@ package shimagent
 //@     invariant distinctKeys(outer(inAgentKeys))
 //@     invariant arr(outer(inAgentKeys)) == arr(keysInAgent) && off(outer(inAgentKeys)) == off(keysInAgent) && len(outer(inAgentKeys)) <= len(keysInAgent)
 //@     invariant [tables-only-shrink] outer(forall(h#bytes, h in dom(s.certs), old(h in dom(s.certs)) && s.certs[h] == old(s.certs[h])))
+//@     invariant [no-listed-certificate-outside-its-validity-window] errs == nil ==> forall(p, 0 <= p && p < len(outer(inAgentKeys)), okBlob(kb(outer(inAgentKeys)[p]), tUnix(now)))
 
 //@ func (*Server).remove(s, key)
 //@   flag logged
@@ -437,5 +438,3 @@ package shimagent
 //@       (!s.noUpstreamSSHCACert || !keyutil.castable(signerKey(uss[j])) ||
 //@        (!(sha(blobid(signerKey(uss[j]))) in dom(s.upstreamSSHCACertCache)) && !hiddenKey(signerKey(uss[j])))) ==>
 //@       exists(i, 0 <= i && i < len(signers), signers[i] == uss[j]))
-//@     invariant [no-listed-certificate-outside-its-validity-window] errs == nil ==> forall(p, 0 <= p && p < len(outer(inAgentKeys)), okBlob(kb(outer(inAgentKeys)[p]), tUnix(now)))
-
